@@ -90,6 +90,11 @@ def checks_jobs(tier):
                 out.append(C(1, se, f, k, nl, na, ng))
     return out
 
+def tmpl_jobs(tier):
+    shapes = ((1, 1, -1), (2, 0, 1), (0, 2, 0), (-1, 1, 2)) if tier == "quick" else [(a, b, c) for a in (-1, 0, 1, 2, 3) for b in (-1, 0, 1, 2, 3) for c in (-1, 0, 1, 2) if (a, b) != (-1, -1)]
+    return [{"name": "TT-l%d-n%d-g%d" % (nl, na, ng), "func": "VerifHarness_TemplateText", "params": {"nlab": nl, "nann": na, "nglab": ng},
+             "unwind": 40, "reach": ["end"]} for nl, na, ng in shapes]
+
 COMMON = ["harness/C01/nodes.go", "harness/C01/ref.go"]
 
 PROP = {
@@ -100,6 +105,7 @@ PROP = {
         {"pkg": "./internal/parser", "harness": COMMON + ["harness/C01/group.go"], "intmode": True, "jobs": group_jobs},
         {"pkg": "./internal/parser", "harness": COMMON + ["harness/C01/top.go"], "intmode": True, "jobs": top_jobs},
         {"pkg": "./internal/checks", "harness": ["harness/C01/checks.go"], "intmode": True, "jobs": checks_jobs},
+        {"pkg": "./internal/checks", "harness": ["harness/C01/checks_tmpl.go"], "intmode": True, "jobs": tmpl_jobs},
     ],
     "bounds": {"rule mapping": "quick <= 3 key/value pairs (+ 4 pairs starting with record/alert), thorough <= 4; <= 2 collection values with <= 2 entries each",
                "group mapping": "quick <= 3 pairs (+ samples of 4), thorough <= 4; <= 2 collection values of <= 4 child nodes",
